@@ -71,12 +71,17 @@ def run(ctx: core.Ctx):
   c13.run_generic(ctx, OPS, PROPS, c37.models(), depth=8, nbeh_quick=50, nbeh_thorough=500)
   # allocator havoc
   work = []
-  for name, xml in c37.models().items():
+  from . import c38
+  hv = dict(c37.models())
+  # sleeping enabled (compacted solver) over dense and sparse Jacobians: first steps have worlds without constraint rows
+  hv["sleep_dense"] = c38.scene([6, 3, 1], True).replace("<option ", '<option jacobian="dense" ')
+  hv["sleep_sparse"] = c38.scene([6, 3, 1], True).replace("<option ", '<option jacobian="sparse" ')
+  for name, xml in hv.items():
     for fill in (float("nan"), 1e30):
       work.append((xml, 2, 3 if ctx.quick else 8, fill))
   res = core.pmap(_havoc_chunk, work, nproc=6)
   for (xml, nworld, nsteps, fill), bad in zip(work, res):
-    name = [n for n, x in c37.models().items() if x == xml][0]
+    name = [n for n, x in hv.items() if x == xml][0]
     ctx.case({"havoc": name, "fill": str(fill), "steps": nsteps}, key=("havoc", name, str(fill)))
     if bad:
       ctx.violation(dict(what="result depends on the contents of freshly allocated scratch memory", model=name, field=bad[0][1]),
